@@ -80,7 +80,8 @@ def run_workers(mod, prop, tier, seed, snap, nshards, timeout, replay=None):
             continue
         if res.get("crashed"):
             problems.append("shard %d crashed: %s" % (sh, res["crashed"][-1500:]))
-            continue
+            if "violations" not in res:
+                continue            # nothing observed before the crash
         results.append(res)
     shutil.rmtree(tmp, ignore_errors=True)
     return results, problems
